@@ -5,152 +5,16 @@ import (
 	"time"
 )
 
-// ---------------------------------------------------------------------------
-// shared layer-A world: a stored entry with symbolic metadata and a symbolic clock
+type vxResponse = Response
 
-type vxClk struct{}
-
-// Now returns arbitrary non-decreasing wall-clock instants (stub contract of DESIGN.md
-// §5).  The stub keeps no heap state (reading k is the variable "now<k>"), so it may be
-// called inside mergeable functions.
-func (c *vxClk) Now() time.Time {
-	k := vxSeq("clk")
-	t := vxTime("now" + string(rune('0'+k)))
-	if k > 0 {
-		vxAssume(!t.Before(vxTime("now" + string(rune('0'+k-1)))))
-	}
-	return t
-}
-func (c *vxClk) Since(t time.Time) time.Duration { return c.Now().Sub(t) }
-
-const vxTwo31 = int64(1) << 31 // "at least 2^31 seconds" (RFC 9111 §1.2.2)
-
-// vxDelta builds a delta-seconds argument: kind 0 = n decimal digits (leading zeros
-// allowed), kind 1 = invalid.  One symbolic string so that the parser forks lazily.
-func vxDelta(name string, ndigits int) string {
-	return vxSel(vxBool(name+".valid"), vxDigits(name, ndigits), "x000000000000000000000000"[:ndigits])
-}
-
-// vxDeltaSpec: the meaning of a delta-seconds string for the oracle: (lo, hi, valid) in
-// seconds, where values >= 2^31 may be read exactly or as 2^31 (both admitted).
-func vxDeltaSpec(s string) (lo, hi vxZ, valid bool) {
-	n, ok := vxZDigits(s)
-	big := vxZOf(vxTwo31)
-	lo = vxZMin(n, big)
-	return lo, n, ok
-}
-
-func vxNDigits() int {
-	if vxTier() == "thorough" {
-		return 20
-	}
-	return 10
-}
-
-// vxEntry is an arbitrary stored entry satisfying the representation invariant:
-// Date parses (FixDateHeader), RequestedAt <= ReceivedAt, status storable (C06).
-type vxEntryT struct {
-	e                      *Response
-	date                   time.Time
-	hasExpires, expValid   bool
-	expires                time.Time
-	hasLM, lmValid         bool
-	lastMod                time.Time
-	ageStr                 string
-	hasAge                 bool
-	status                 int
-}
-
-func vxHdrKey(present bool, name string) string {
-	// "X" + name[1:] is never looked up by the code under test
-	return vxSel(present, name, "X"+name[1:])
-}
-
-func vxEntry(p string) *vxEntryT {
-	x := &vxEntryT{}
-	h := http.Header{}
-	x.status = vxInt(p+".status", 200, 599)
-	vxAssume(x.status != 206 && x.status != 304)
-	// Date: always valid in a stored entry
-	h["Date"] = []string{vxHTTPDate(p + ".date")}
-	x.date = vxTimeSec(p + ".date")
-	// Expires, Last-Modified: absent / valid / invalid -- all decided lazily (header key
-	// and validity are symbolic; the code under test forks when it looks)
-	x.hasExpires = vxBool(p + ".has-expires")
-	x.expValid = vxBool(p + ".expires.valid")
-	h[vxHdrKey(x.hasExpires, "Expires")] = []string{vxHTTPDateOpt(p + ".expires")}
-	x.expires = vxTimeSec(p + ".expires")
-	x.hasLM = vxBool(p + ".has-lm")
-	x.lmValid = vxBool(p + ".lm.valid")
-	h[vxHdrKey(x.hasLM, "Last-Modified")] = []string{vxHTTPDateOpt(p + ".lm")}
-	x.lastMod = vxTimeSec(p + ".lm")
-	// Age: absent / decimal digits / invalid (lazy), or negative (eager choice)
-	x.hasAge = vxBool(p + ".has-age")
-	if vxChoice(p+".age.kind", 2) == 0 {
-		x.ageStr = vxDelta(p+".age", vxNDigits())
-	} else {
-		x.ageStr = "-5"
-	}
-	h[vxHdrKey(x.hasAge, "Age")] = []string{x.ageStr}
-	req := vxTime(p + ".requested")
-	rcv := vxTime(p + ".received")
-	vxAssume(!rcv.Before(req))
-	x.e = &Response{ID: "k#0", Data: &http.Response{StatusCode: x.status, Header: h}, RequestedAt: req, ReceivedAt: rcv}
-	return x
-}
-
-// RFC 9110 §15.1 heuristically cacheable status codes.
-func vxHeuristicStatus(code int) bool {
-	r := false
-	for _, c := range [...]int{200, 203, 204, 206, 300, 301, 308, 404, 405, 410, 414, 501} {
-		r = vxOr(r, code == c)
-	}
-	return r
-}
-
-const vxSecond = int64(1000000000)
-
-// vxSpecAge: RFC 9111 §4.2.3 current age in exact nanoseconds at instant now, for both
-// admitted readings of a large Age value (lo: capped at 2^31 s; hi: exact).
-func vxSpecAge(x *vxEntryT, now time.Time) (lo, hi vxZ) {
-	zero := vxZOf(0)
-	rcv, req, date := vxZTime(x.e.ReceivedAt), vxZTime(x.e.RequestedAt), vxZTime(x.date)
-	apparent := vxZMax(vxZSub(rcv, date), zero)
-	delay := vxZMax(vxZSub(rcv, req), zero)
-	resident := vxZMax(vxZSub(vxZTime(now), rcv), zero)
-	avLo, avHi := zero, zero
-	{
-		l, h, ok := vxDeltaSpec(x.ageStr)
-		ok = vxAnd(ok, x.hasAge)
-		avLo = vxZIte(ok, vxZMulK(l, vxSecond), zero)
-		avHi = vxZIte(ok, vxZMulK(h, vxSecond), zero)
-	}
-	lo = vxZAdd(vxZMax(apparent, vxZAdd(avLo, delay)), resident)
-	hi = vxZAdd(vxZMax(apparent, vxZAdd(avHi, delay)), resident)
-	return
-}
-
-// vxSpecLifetime: RFC 9111 §4.2.1-4.2.2 freshness lifetime in exact nanoseconds; the
-// largest value any admitted reading allows (so "age >= lifetime" means stale under
-// every reading).
-func vxSpecLifetime(x *vxEntryT, maxAgePresent bool, maxAgeStr string, public bool) vxZ {
-	zero := vxZOf(0)
-	expiresBased := vxZIte(vxAnd(x.hasExpires, x.expValid), vxZMax(vxZSub(vxZTime(x.expires), vxZTime(x.date)), zero), zero)
-	_, mh, mok := vxDeltaSpec(maxAgeStr)
-	// invalid max-age: stale, or (admitted) fall back to Expires
-	maxAgeBased := vxZIte(mok, vxZMulK(mh, vxSecond), expiresBased)
-	// at most 10% of (Date - Last-Modified); one second of slack for second-granularity rounding
-	d := vxZSub(vxZTime(x.date), vxZTime(x.lastMod))
-	heur := vxZMax(vxZAdd(vxZDivK(d, 10), vxZOf(vxSecond)), zero)
-	heurOK := vxAnd(vxOr(vxHeuristicStatus(x.status), public), vxAnd(x.hasLM, x.lmValid))
-	heurBased := vxZIte(heurOK, heur, zero)
-	return vxZIte(maxAgePresent, maxAgeBased, vxZIte(x.hasExpires, expiresBased, heurBased))
-}
+var _ = http.StatusOK
+var _ = time.Second
 
 // VxC01_Freshness: layer-A check of CalculateFreshness against the RFC oracle.
 func VxC01_Freshness() {
+	vxND = vxNDigits()
 	x := vxEntry("e")
-	nd := vxNDigits()
+	nd := vxND
 	// response directives
 	resCC := CCResponseDirectives{}
 	rMaxAge := vxBool("resp.max-age")
@@ -175,6 +39,8 @@ func VxC01_Freshness() {
 	reqCC[vxSel(qMaxStale, "max-stale", "xax-stale")] = qMaxStaleStr
 
 	clk := &vxClk{}
+	vxClkFloor, vxClkHasFloor = x.e.ReceivedAt, true
+	clk.start()
 	fc := NewFreshnessCalculator(clk)
 	f := fc.CalculateFreshness(x.e, reqCC, resCC)
 	first := vxTime("now0") // first clock reading of the exchange
